@@ -36,7 +36,7 @@ CLAIMED = {
          'E-CODEC (struct.pack/unpack big-endian; 8-byte form axiomatised by pack/unpack inverse), two xormask lemmas assumed with bounded check, bytes are code points 0..255'),
  'C18': ('4.C18', 'per-event contract of EventDispatcher.handle_event/_send/_close_and_delete over a ghost delivery log (channel, message): ack-or-drop on subscribe, at most one ack and removal on unsubscribe, fan-out of exactly this event; _broadcast unrolled for <= 3 subscribers (the property\'s own bound) plus an exhaustive native script sweep',
          'E-CHAN (send delivers once or raises BrokenPipeError), E-QUEUE FIFO; broadcast bounded to 3 subscribers — that part is bounded, not proved'),
- 'C19': ('4.C19', 'reduced claim: port write-back slice of Proxy.setup (flags.port is the primary listener\'s port; flags.ports are exactly the other bound ports) for <= 3 additional ports, plus an exhaustive native option-grid sweep of the real ListenerPool.setup + slice + port file',
+ 'C19': ('4.C19', 'reduced claim: port write-back slice of Proxy.setup (flags.port is the primary listener\'s port; flags.ports are exactly the other bound ports) for <= 3 additional ports; Proxy.shutdown: every started component shut down exactly once in order, pid / port files removed; plus an exhaustive native option-grid sweep of the real ListenerPool.setup + slice + port file',
          'single listening address; ListenerPool.setup creation order assumed in the proof part (exercised for real in the sweep); accepting endpoints, child processes and execution modes are out of reach'),
  'C20': ('4.C20', 'is_inactive == (no pending output and idle > timeout) as iff-postcondition; last_activity stamped exactly on acted-upon client readiness',
          'E-TIME (monotone mathematical clock); delay bound in loop iterations not seconds; reaper loop covered under C05 (bounded)'),
